@@ -58,6 +58,12 @@ theorem step_frame (base : Path → Res Unit) (s s' : St) (op : Op) (h : step ba
     · cases h; exact ⟨rfl, rfl⟩
     · cases h
     · cases h
+  | migrate a st cr body =>
+    simp only [step] at h
+    split at h
+    · cases h; exact ⟨rfl, rfl⟩
+    · cases h
+    · cases h
 
 theorem step_lpCw20 (base : Path → Res Unit) (s s' : St) (op : Op) (h : step base s op = .ok s') :
     s'.lpCw20 = s.lpCw20 := (step_frame base s s' op h).1
@@ -168,5 +174,92 @@ theorem step_call_flags (base : Path → Res Unit) (s s' : St) (p : Path) (h : s
   · cases h; rfl
   · cases h
   · cases h
+
+/-- a migration — whoever sends it, from whichever version, whatever its storage migration does — is the
+    identity on the modelled state when it is accepted -/
+theorem step_migrate_state (base : Path → Res Unit) (s s' : St) (a : Bool) (st cr : Ver) (body : Res Unit)
+    (h : step base s (.migrate a st cr body) = .ok s') : s' = s := by
+  simp only [step] at h
+  split at h
+  · cases h; rfl
+  · cases h
+  · cases h
+
+/-- the operations that can write a switch: the owner's `UpdateConfig` carrying switches -/
+def Op.ownerWrite : Op → Bool
+  | .setFlags byOwner _ => byOwner
+  | .setPartial byOwner _ _ _ => byOwner
+  | _ => false
+
+def Op.isMigrate : Op → Bool
+  | .migrate _ _ _ _ => true
+  | _ => false
+
+/-- any operation that is not a switch-carrying `UpdateConfig` of the owner leaves the whole modelled
+    state as it was, whether it succeeds or not -/
+theorem step_not_ownerWrite (base : Path → Res Unit) (s s' : St) (op : Op) (hw : op.ownerWrite = false)
+    (h : step base s op = .ok s') : s' = s := by
+  cases op with
+  | setFlags o f =>
+    simp only [Op.ownerWrite] at hw
+    subst hw
+    simp [step] at h
+  | setPartial o a b c =>
+    simp only [Op.ownerWrite] at hw
+    subst hw
+    simp [step] at h
+  | touch o =>
+    simp only [step] at h
+    split at h
+    · cases h; rfl
+    · cases h
+  | call p => exact step_call_flags base s s' p h
+  | inLoan outer inner m lb =>
+    simp only [step] at h
+    split at h
+    · cases h; rfl
+    · cases h
+    · cases h
+  | migrate a st cr body => exact step_migrate_state base s s' a st cr body h
+
+theorem reach_not_ownerWrite (base : Path → Res Unit) (ops : List Op) (s : St)
+    (hw : ∀ op ∈ ops, op.ownerWrite = false) : reach base s ops = s := by
+  induction ops generalizing s with
+  | nil => rfl
+  | cons op ops ih =>
+    have hop := hw op (List.mem_cons_self ..)
+    have hrest : ∀ o ∈ ops, o.ownerWrite = false := fun o ho => hw o (List.mem_cons_of_mem _ ho)
+    simp only [reach]
+    split
+    · next s' h =>
+      rw [step_not_ownerWrite base s s' op hop h]
+      exact ih s hrest
+    · exact ih s hrest
+
+theorem isMigrate_not_ownerWrite (op : Op) (h : op.isMigrate = true) : op.ownerWrite = false := by
+  cases op <;> simp_all [Op.isMigrate, Op.ownerWrite]
+
+/-- migrations can be struck out of a history: the state reached is the same -/
+theorem reach_filter_migrate (base : Path → Res Unit) (ops : List Op) (s : St) :
+    reach base s (ops.filter (fun op => !op.isMigrate)) = reach base s ops := by
+  induction ops generalizing s with
+  | nil => rfl
+  | cons op ops ih =>
+    by_cases hm : op.isMigrate = true
+    · have hf : (op :: ops).filter (fun op => !op.isMigrate) = ops.filter (fun op => !op.isMigrate) := by
+        simp [List.filter, hm]
+      rw [hf, ih]
+      simp only [reach]
+      split
+      · next s' h =>
+        rw [step_not_ownerWrite base s s' op (isMigrate_not_ownerWrite op hm) h]
+      · rfl
+    · have hf : (op :: ops).filter (fun op => !op.isMigrate) = op :: ops.filter (fun op => !op.isMigrate) := by
+        simp [List.filter, hm]
+      rw [hf]
+      simp only [reach]
+      split
+      · exact ih _
+      · exact ih _
 
 end WW.Toggles
